@@ -30,3 +30,12 @@ META['C11'] = dict(
                'with user comparator (including equal-but-distinct objects) and default pointer comparator (pointers more than 2^31 and 2^32 apart), with and without destructor. '
                'After every operation the complete observable state is compared with a sorted-set monitor.',
     level_note='Bounded key count; comparator order for pointers checked on a fixed adversarial menu of 8 values.')
+
+META['C05'] = dict(
+    engine='seqx-inproc', design_ref='6/C05',
+    technique='explicit-state BFS over operation histories on the real m_map_* code (8-slot table via guarded hook, and default size) with a dictionary reference monitor, allocator ledger and probe suffixes',
+    level_text='All histories of put/remove/iterate/iterator/clear over 7 (thorough: 10) keys in an 8-slot table - which forces collisions, shared home slots, clusters that wrap the table end and table growth - '
+               'are enumerated up to the stated depth for six flag combinations with and without destructor, and again at the default table size. After every operation the whole observable '
+               'state (len, get/contains of every key, a full callback iteration, destructor log, outstanding allocations incl. duplicated keys) is compared with the monitor.',
+    level_note='Depth-bounded (not a fixpoint): layouts needing longer histories are not reached. The tiny table needs the guarded hook LIBMODULE_VERIF_MAP_SIZE.')
+HOOK_COMMITS.append('476a627')
